@@ -23,6 +23,11 @@ def proj_seq(d):
     return (flag(d),) + tuple(d.get(k) for k in SEQ_FIELDS)
 
 
+def replay_proj(d):
+    """./check C10 --replay: recorded histories are compared by verdict, sequences by the fields both sides have"""
+    return ('lin', d.get('lin')) if 'lin' in d else proj_seq(d)
+
+
 def oracle_seq(case, gd):
     if flag(gd):
         return f'harness flag {flag(gd)}'
